@@ -334,6 +334,11 @@ func (st *State) check(kind, label, prop, src, where, goal string) {
 	}
 	o := &Oblig{Func: shortFuncName(st.vf.key), Kind: kind, Label: label, Prop: prop, Src: src, Where: where, Goal: goal, Trail: strings.Join(st.trail, " ")}
 	o.Script = st.script(goal)
+	{
+		// reachability of this obligation: the assumptions collected so far (the obligation's own goal excluded)
+		snap := &State{eng: st.eng, vf: st.vf, decls: st.decls[:len(st.decls):len(st.decls)], assumes: st.assumes[:len(st.assumes):len(st.assumes)], isAxiom: st.isAxiom}
+		o.Cover = func() string { return snap.script("false") }
+	}
 	st.vf.obligs = append(st.vf.obligs, o)
 	st.assume(goal)
 	if st.facts == nil {
@@ -1072,6 +1077,11 @@ func (vf *VerifyFunc) step(st *State, fr *Frame, in ssa.Instruction) bool {
 			return false
 		}
 		if res != nil {
+			if x.Call.IsInvoke() && x.Call.Method.Name() == "Done" && types.TypeString(x.Call.Value.Type(), nil) == "context.Context" && len(args) > 0 && args[0].S == SIface {
+				r2 := *res
+				r2.DoneOf = "(i_val " + args[0].Tm + ")"
+				res = &r2
+			}
 			fr.regs[x] = res
 		}
 		fr.idx++
@@ -1213,6 +1223,7 @@ func (vf *VerifyFunc) step(st *State, fr *Frame, in ssa.Instruction) bool {
 		return true
 	case *ssa.Send:
 		ch := st.get(fr, x.Chan)
+		vf.chanInvSend(st, fr, ch, st.get(fr, x.X), in, fmt.Sprintf("send#%d", vf.eng.info(fr.fn).chanOrd[in]))
 		vf.chanOp(st, fr, ch, "send", in)
 		fr.idx++
 		return !st.dead
